@@ -2,10 +2,12 @@ use crate::report::Report;
 use crate::Args;
 
 pub mod c01;
+pub mod c02;
 
 pub fn dispatch(args: &Args, rep: &mut Report) {
     match args.prop.as_str() {
         "C01" => c01::run(args, rep),
+        "C02" => c02::run(args, rep),
         p => {
             eprintln!("unknown property {p}");
             std::process::exit(2);
